@@ -8,6 +8,7 @@ import (
 
 	"google.golang.org/grpc"
 	"google.golang.org/grpc/metadata"
+	"google.golang.org/grpc/status"
 	"google.golang.org/protobuf/proto"
 )
 
@@ -43,10 +44,20 @@ func NewClientServerStream(ctx context.Context) *ClientServerStream {
 func (s *ClientServerStream) Close(err error) {
 	// headers that were set but never sent travel with the end of the stream, as in gRPC
 	_ = (&serverStream{s}).SendHeader(nil)
-	s.closeErr = err
+	s.closeErr = handlerErr(err)
 	close(s.closedC)
 	close(s.serverSend)
 	s.closed()
+}
+
+// handlerErr is what a client gets for the error a handler returned. Over a connection a handler's bare
+// context error keeps its meaning: grpc-go's server turns it into the status DeadlineExceeded / Canceled.
+// (Any other error that is not a status reads as Unknown with the error's text either way.)
+func handlerErr(err error) error {
+	if err == context.DeadlineExceeded || err == context.Canceled {
+		return status.FromContextError(err).Err()
+	}
+	return err
 }
 
 // safe to call if s.serverSend is closed
